@@ -60,12 +60,12 @@ type field struct {
 }
 
 type fnSpec struct {
-	file string // relative to the repository
-	name string // function (or Recv.Method)
-	inst map[string]string // type parameter -> the Go type it is instantiated with in this translation
-	ids  []string          // type parameters that are also passed as abstract type ids (reflect.TypeOf)
-	from string            // translate only the TAIL of the body: from the first top-level statement whose source text starts with this
-	vars map[string]string // ... and the variables the skipped part declares that the tail uses: name -> Go type
+	file   string            // relative to the repository
+	name   string            // function (or Recv.Method)
+	inst   map[string]string // type parameter -> the Go type it is instantiated with in this translation
+	ids    []string          // type parameters that are also passed as abstract type ids (reflect.TypeOf)
+	from   string            // translate only the TAIL of the body: from the first top-level statement whose source text starts with this
+	vars   map[string]string // ... and the variables the skipped part declares that the tail uses: name -> Go type
 	ptypes map[string]string // parameters translated at another Go type than declared (a path passed as a string)
 	as     string            // name of the generated definitions (a method and a function of the same name)
 }
@@ -101,42 +101,43 @@ type area struct {
 	// values of function type that the code calls: Go type -> how
 	callables map[string]callable
 	// package-level values: "pkg.Name" -> term and Go type
-	values map[string]field
-	globals map[string]global      // package-level maps
-	asserts map[string]assertion   // "<Go type of x>.(<asserted type>)"
-	news    map[string]string      // new(T): Go type T -> term
-	panicf  string                 // payload constructor of panic(fmt.Errorf(format, typeid, ...))
-	maps    map[string]string      // Go map type -> lookup function  (lookup m k : V' * bool, zero value on a miss)
-	cells   map[string]string      // pointer types modelled as the value they point to (never nil): "*T" -> "T"
-	errorf  string                 // fmt.Errorf(format, ...) as an error VALUE: (errorf format)
-	ints    map[string]bool        // further integer-like types (compared with =?)
-	pkgs    map[string]bool        // import names under which other files call the area's translated functions
-	mapget  map[string]string      // Go map type -> total index function (m[k], zero value on a miss): (get m k)
+	values  map[string]field
+	globals map[string]global    // package-level maps
+	asserts map[string]assertion // "<Go type of x>.(<asserted type>)"
+	news    map[string]string    // new(T): Go type T -> term
+	panicf  string               // payload constructor of panic(fmt.Errorf(format, typeid, ...))
+	maps    map[string]string    // Go map type -> lookup function  (lookup m k : V' * bool, zero value on a miss)
+	cells   map[string]string    // pointer types modelled as the value they point to (never nil): "*T" -> "T"
+	errorf  string               // fmt.Errorf(format, ...) as an error VALUE: (errorf format)
+	ints    map[string]bool      // further integer-like types (compared with =?)
+	pkgs    map[string]bool      // import names under which other files call the area's translated functions
+	mapget  map[string]string    // Go map type -> total index function (m[k], zero value on a miss): (get m k)
 	// stage 5 (analysis code): see stage5.go
-	wrecv   map[string]map[string]wfield   // receiver types whose whole state is the world (the receiver itself is erased): field -> access
-	stores  map[string]map[string]recField // pointer types that are LOCATIONS in the world: field -> (get p w) / (set p v w)
-	loads   map[string]string              // location type -> (load p w): the object as a value (for value-receiver methods)
-	nilmaps map[string]string              // map types: `m == nil` -> (coq m)
-	makes   map[string]string              // make(T) -> term
-	wmaps   map[string]string              // "<receiver type>.<field>": g.f[k] = v -> (coq k v w)
-	optOf   map[string]string              // nil-able variant of a location type: "*Field|nil" -> "*Field" (values are wrapped in Some)
-	eqs     map[string]string              // further types compared with == : Go type -> boolean equality
-	shadow  bool                           // `:=` in a nested scope may shadow a name that is never assigned with `=`
-	wderefs map[string]wderef              // pointers to a slice kept in the world: *p reads it, *p = append(*p, x) extends it
-	zeros   map[string]string              // zero value (nil) of further types
-	mapvals map[string]string              // pseudo map types: Go type of the values (comma-ok lookups)
-	refmaps map[string]string              // types of REFERENCES to world maps (a map passed as an argument): m[k] = v -> (coq m k v w)
-	wlooks  map[string]string              // "<receiver type>.<path>" or "<...>.<method>()": v, ok := g.m[k] -> (coq k w) : V * bool
-	ltypes  map[string]string              // "<function>.<local>": Go type a `var x T` is translated at
-	muts    map[string]string              // f(x) that changes the slice variable x in place (sort.Strings): let x := coq x
-	pairmaps map[string][2]string          // map types kept as the list of (key, value) pairs in iteration order: Go types of key and value
-	ifaces  map[string]string              // interface type of a variable -> the (world-backed) struct type whose translated methods it is called with
-	fatals  map[string]bool                // calls that end the process: the function stops with Panicked (PErrorf <format> 0)
-	wsets   map[string]string              // "<receiver type>.<field>.<field>": g.a.b = e -> (coq e w)
-	lmaps   map[string]string              // LOCAL map variables kept as pure values: Go map type -> (put k v m) of m[k] = v
-	lmuts   map[string]string              // "<Go type>.<Method>": x.M(args) on a LOCAL x changes it in place: let x := (coq x args)
-	fresh   map[string]int                 // function -> index of a pointer argument that every caller in the package must
-	                                       // pass as a fresh composite literal &T{...} (precondition of the store discipline)
+	wrecv    map[string]map[string]wfield   // receiver types whose whole state is the world (the receiver itself is erased): field -> access
+	stores   map[string]map[string]recField // pointer types that are LOCATIONS in the world: field -> (get p w) / (set p v w)
+	loads    map[string]string              // location type -> (load p w): the object as a value (for value-receiver methods)
+	nilmaps  map[string]string              // map types: `m == nil` -> (coq m)
+	makes    map[string]string              // make(T) -> term
+	wmaps    map[string]string              // "<receiver type>.<field>": g.f[k] = v -> (coq k v w)
+	optOf    map[string]string              // nil-able variant of a location type: "*Field|nil" -> "*Field" (values are wrapped in Some)
+	eqs      map[string]string              // further types compared with == : Go type -> boolean equality
+	shadow   bool                           // `:=` in a nested scope may shadow a name that is never assigned with `=`
+	wderefs  map[string]wderef              // pointers to a slice kept in the world: *p reads it, *p = append(*p, x) extends it
+	zeros    map[string]string              // zero value (nil) of further types
+	mapvals  map[string]string              // pseudo map types: Go type of the values (comma-ok lookups)
+	refmaps  map[string]string              // types of REFERENCES to world maps (a map passed as an argument): m[k] = v -> (coq m k v w)
+	wlooks   map[string]string              // "<receiver type>.<path>" or "<...>.<method>()": v, ok := g.m[k] -> (coq k w) : V * bool
+	ltypes   map[string]string              // "<function>.<local>": Go type a `var x T` is translated at
+	muts     map[string]string              // f(x) that changes the slice variable x in place (sort.Strings): let x := coq x
+	pairmaps map[string][2]string           // map types kept as the list of (key, value) pairs in iteration order: Go types of key and value
+	ifaces   map[string]string              // interface type of a variable -> the (world-backed) struct type whose translated methods it is called with
+	fatals   map[string]bool                // calls that end the process: the function stops with Panicked (PErrorf <format> 0)
+	wsets    map[string]string              // "<receiver type>.<field>.<field>": g.a.b = e -> (coq e w)
+	wmaps2   map[string]string              // "<receiver type>.<path>": g.m[k1][k2] = v on a world map of maps -> (coq k1 k2 v w)
+	lmaps    map[string]string              // LOCAL map variables kept as pure values: Go map type -> (put k v m) of m[k] = v
+	lmuts    map[string]string              // "<Go type>.<Method>": x.M(args) on a LOCAL x changes it in place: let x := (coq x args)
+	fresh    map[string]int                 // function -> index of a pointer argument that every caller in the package must
+	// pass as a fresh composite literal &T{...} (precondition of the store discipline)
 }
 
 type recField struct {
@@ -145,10 +146,10 @@ type recField struct {
 }
 
 type callable struct {
-	nilable bool  // the function value may be nil (option): calling nil panics
-	coq    string // (coq f arg)
-	result string // Go type of the result ("" : none)
-	mutate bool   // f(x) updates what x points to: `let x := coq f x`
+	nilable bool   // the function value may be nil (option): calling nil panics
+	coq     string // (coq f arg)
+	result  string // Go type of the result ("" : none)
+	mutate  bool   // f(x) updates what x points to: `let x := coq f x`
 }
 
 var areas = map[string]*area{
@@ -213,9 +214,9 @@ func init() {
 			"*RestConf": "(RestRuntime.conf M)", "map[string]string": "RestRuntime.headers",
 			"middleware.Middleware": "M", "[]middleware.Middleware": "(list M)",
 			"http.RoundTripper": "RestRuntime.rt",
-			"RestConf": "(RestRuntime.conf M)", "reflect.Type": "nat", "T": "Client",
+			"RestConf":          "(RestRuntime.conf M)", "reflect.Type": "nat", "T": "Client",
 			"any": "(option (RestRuntime.ctor M Client))", "func(RestConf) T": "(RestRuntime.ctor M Client)",
-			"func(RestConf) T|nil": "(option (RestRuntime.ctor M Client))",
+			"func(RestConf) T|nil":          "(option (RestRuntime.ctor M Client))",
 			"Option[RestConf, *RestConf]":   "(RestRuntime.conf M -> RestRuntime.conf M)",
 			"[]Option[RestConf, *RestConf]": "(list (RestRuntime.conf M -> RestRuntime.conf M))",
 		},
@@ -455,11 +456,11 @@ func typeString(e ast.Expr) string {
 }
 
 type variable struct {
-	name string // Gallina name
-	typ  string // Go type
-	kind int    // 0 parameter, 1 local, 2 erased parameter, 3 inlined immutable local
-	def  string // kind 3: the Gallina term it stands for
-	depth int   // block nesting of its declaration
+	name  string // Gallina name
+	typ   string // Go type
+	kind  int    // 0 parameter, 1 local, 2 erased parameter, 3 inlined immutable local
+	def   string // kind 3: the Gallina term it stands for
+	depth int    // block nesting of its declaration
 }
 
 type env struct {
@@ -531,26 +532,26 @@ func isDigits(s string) bool {
 // --------------------------------------------------------------- translator
 
 type translator struct {
-	consts map[string]string // package-level constants: integer ones of the file, string ones of the package: name -> term
-	strConsts map[string]bool
+	consts     map[string]string // package-level constants: integer ones of the file, string ones of the package: name -> term
+	strConsts  map[string]bool
 	reassigned map[string]bool // variables of the current function assigned after their declaration
-	a     *area
-	out   []string // top-level definitions, in order
-	names []string // generated definition names
-	fn    string   // current function name
-	ret   []string // Go result types of the current function
-	nJoin int
-	nLoop int
-	nTmp  int
-	pars  []*variable // parameters of the current function (after erasure)
-	outs  []*variable // record parameters the function writes through: returned after the results
-	ids   map[string]bool // type parameters of the current function that are passed as type ids
-	idList []string
-	sigs  map[string]*signature // functions of the area translated so far
-	dir   string // directory of the file being translated
-	inner int    // > 0 while the body of a nested loop is translated
-	defers []ast.Stmt // bodies of the `defer func() {..}()` statements executed so far, last first
-	pkg   map[string][]*ast.File
+	a          *area
+	out        []string // top-level definitions, in order
+	names      []string // generated definition names
+	fn         string   // current function name
+	ret        []string // Go result types of the current function
+	nJoin      int
+	nLoop      int
+	nTmp       int
+	pars       []*variable     // parameters of the current function (after erasure)
+	outs       []*variable     // record parameters the function writes through: returned after the results
+	ids        map[string]bool // type parameters of the current function that are passed as type ids
+	idList     []string
+	sigs       map[string]*signature // functions of the area translated so far
+	dir        string                // directory of the file being translated
+	inner      int                   // > 0 while the body of a nested loop is translated
+	defers     []ast.Stmt            // bodies of the `defer func() {..}()` statements executed so far, last first
+	pkg        map[string][]*ast.File
 }
 
 func (t *translator) coqType(n ast.Node, goType string) string {
@@ -620,7 +621,7 @@ type signature struct {
 	params  []string // Go types of the (non-erased) parameters, in order
 	results []string // Go types of the results (outs excluded)
 	nouts   int
-	ids     int // leading type-id parameters
+	ids     int    // leading type-id parameters
 	recv    string // methods: the receiver's base type
 	drop    []bool // per declared parameter (receiver excluded): erased, not passed
 }
@@ -1002,6 +1003,13 @@ func (t *translator) primOf(c *ast.CallExpr, ev *env) (prim, string) {
 		}
 	case *ast.Ident:
 		key = f.Name
+	case *ast.IndexExpr:
+		// pkg.F[T](...): an instantiated generic function, keyed "pkg.F[...]"
+		if k := exprKey(f.X); k != "" {
+			if _, known := t.a.prims[k+"[...]"]; known {
+				key = k + "[...]"
+			}
+		}
 	}
 	if pk := t.pathKey(c.Fun, ev); pk != "" {
 		key = pk
@@ -1041,7 +1049,13 @@ func (t *translator) mayPanic(e ast.Expr, ev *env) bool {
 	found := false
 	ast.Inspect(e, func(n ast.Node) bool {
 		if ix, ok := n.(*ast.IndexExpr); ok {
-			if _, isMap := t.a.mapget[t.typeOfSafe(ix.X, ev)]; !isMap {
+			inst := false // pkg.F[T]: the instantiation of a generic function, not an index
+			if sel, isSel := ix.X.(*ast.SelectorExpr); isSel {
+				if id, isId := sel.X.(*ast.Ident); isId && ev.index[id.Name] == nil {
+					_, inst = t.a.prims[exprKey(ix.X)+"[...]"]
+				}
+			}
+			if _, isMap := t.a.mapget[t.typeOfSafe(ix.X, ev)]; !isMap && !inst {
 				found = true
 			}
 		}
@@ -2164,6 +2178,16 @@ func (t *translator) assign(x *ast.AssignStmt, ev *env, cont func(*env) string) 
 				}
 				return "(let w := " + ins + " " + t.pure(ix.Index, ev, "") + " " + t.pure(x.Rhs[0], ev, "") + " w in\n" + cont(ev) + ")"
 			}
+			if ix2, isIx2 := ix.X.(*ast.IndexExpr); isIx2 {
+				if pk := t.pathKey(ix2.X, ev); pk != "" && t.a.wmaps2[pk] != "" {
+					// g.m[k1][k2] = v: the inner map exists (the code makes it before; a nil inner map would panic)
+					if t.mayPanic(ix2.Index, ev) || t.mayPanic(ix.Index, ev) || t.mayPanic(x.Rhs[0], ev) {
+						unsup(x, "map assignment whose key or value can panic")
+					}
+					return "(let w := " + t.a.wmaps2[pk] + " " + t.pure(ix2.Index, ev, "") + " " + t.pure(ix.Index, ev, "") + " " +
+						t.pure(x.Rhs[0], ev, "") + " w in\n" + cont(ev) + ")"
+				}
+			}
 			gid, isId := ix.X.(*ast.Ident)
 			if !isId {
 				unsup(ix, "assignment to an element of something that is not a variable")
@@ -2882,11 +2906,11 @@ func (t *translator) counterLoop(x *ast.ForStmt, ev *env) (*fuelLoop, []*variabl
 // a loop translated to recursion on fuel
 type fuelLoop struct {
 	node    ast.Node
-	counter string    // "" : a while loop (its counter is one of the carried variables)
-	lo      string    // initial value of the counter
-	step    int       // +1 / -1
-	fuel    string    // term of type nat
-	condE   ast.Expr  // the condition (evaluated in every iteration; it may panic)
+	counter string   // "" : a while loop (its counter is one of the carried variables)
+	lo      string   // initial value of the counter
+	step    int      // +1 / -1
+	fuel    string   // term of type nat
+	condE   ast.Expr // the condition (evaluated in every iteration; it may panic)
 	body    []ast.Stmt
 	extra   []*variable // further loop-invariant variables bound by the caller (range snapshots)
 	value   *ast.Ident  // range loops: the element variable, bound to seq[counter] at the start of an iteration
@@ -3075,12 +3099,18 @@ func (t *translator) rangeIndexStmt(x *ast.RangeStmt, rest []ast.Stmt, ev *env, 
 	if t.mayPanic(x.X, ev) {
 		unsup(x.X, "ranged expression that can panic")
 	}
-	if _, isId := x.X.(*ast.Ident); !isId {
-		unsup(x.X, "range with index over something that is not a variable")
-	}
 	xt := t.typeOf(x.X, ev)
 	if !strings.HasPrefix(xt, "[]") {
 		unsup(x.X, "range over a %s", xt)
+	}
+	if _, isId := x.X.(*ast.Ident); !isId {
+		// the ranged expression is evaluated once: name it
+		xn := t.fresh("xs")
+		e1 := ev.clone()
+		e1.add(xn, xt, 1)
+		x2 := *x
+		x2.X = ast.NewIdent(xn)
+		return "(let " + xn + " : " + t.coqType(x, xt) + " := " + t.pure(x.X, ev, xt) + " in\n" + t.rangeIndexStmt(&x2, rest, e1, k) + ")"
 	}
 	var val *ast.Ident
 	if x.Value != nil {
